@@ -102,17 +102,17 @@ theorem sumTo_const_one (n : Nat) : sumTo n (fun _ => 1) = n := by
 
 /-! ### Counting entries -/
 
-def cntT (x : Nat) (t : Tree) : Nat := t.entries.count x
-def cntL (x : Nat) (ts : List Tree) : Nat := (entriesL ts).count x
+def cntT (x : Label) (t : Tree) : Nat := t.entries.count x
+def cntL (x : Label) (ts : List Tree) : Nat := (entriesL ts).count x
 
-def Msg.cnt (x : Nat) : Msg → Nat
+def Msg.cnt (x : Label) : Msg → Nat
   | .work t => cntT x t
   | .quit => 0
 
-def dqCnt (x : Nat) (d : List Msg) : Nat := (d.map (Msg.cnt x)).sum
+def dqCnt (x : Label) (d : List Msg) : Nat := (d.map (Msg.cnt x)).sum
 
 /-- Entries a worker holds *in hand* (outside every deque) at a program point. -/
-def Pc.cnt (x : Nat) : Pc → Nat
+def Pc.cnt (x : Label) : Pc → Nat
   | .activate m => m.cnt x
   | .check (some m) => m.cnt x
   | .hold t => cntT x t
@@ -120,25 +120,25 @@ def Pc.cnt (x : Nat) : Pc → Nat
   | _ => 0
 
 /-- Occurrences of label `x` among the entries that are queued or in hand. -/
-def held (n x : Nat) (s : State) : Nat :=
+def held (n : Nat) (x : Label) (s : State) : Nat :=
   sumTo n (Pc.cnt x ∘ s.pc) + sumTo n (dqCnt x ∘ s.dq)
 
-theorem cntL_cons (x : Nat) (t : Tree) (ts : List Tree) : cntL x (t :: ts) = cntT x t + cntL x ts := by
+theorem cntL_cons (x : Label) (t : Tree) (ts : List Tree) : cntL x (t :: ts) = cntT x t + cntL x ts := by
   simp [cntL, cntT, entriesL, List.count_append]
 
-@[simp] theorem cntL_nil (x : Nat) : cntL x [] = 0 := by simp [cntL, entriesL]
+@[simp] theorem cntL_nil (x : Label) : cntL x [] = 0 := by simp [cntL, entriesL]
 
-theorem cntT_eq (x : Nat) (t : Tree) :
+theorem cntT_eq (x : Label) (t : Tree) :
     cntT x t = (if t.label = x then 1 else 0) + cntL x t.kids := by
   cases t with
   | node l ks =>
     simp only [cntT, cntL, Tree.entries, Tree.label, Tree.kids, List.count_cons, beq_iff_eq]
     by_cases h : l = x <;> simp [h] <;> omega
 
-@[simp] theorem dqCnt_nil (x : Nat) : dqCnt x [] = 0 := by simp [dqCnt]
-@[simp] theorem dqCnt_cons (x : Nat) (m : Msg) (d : List Msg) :
+@[simp] theorem dqCnt_nil (x : Label) : dqCnt x [] = 0 := by simp [dqCnt]
+@[simp] theorem dqCnt_cons (x : Label) (m : Msg) (d : List Msg) :
     dqCnt x (m :: d) = m.cnt x + dqCnt x d := by simp [dqCnt]
-@[simp] theorem dqCnt_append (x : Nat) (d e : List Msg) :
+@[simp] theorem dqCnt_append (x : Label) (d e : List Msg) :
     dqCnt x (d ++ e) = dqCnt x d + dqCnt x e := by simp [dqCnt, List.sum_append]
 
 @[simp] theorem dqCost_nil (n : Nat) : dqCost n [] = 0 := by simp [dqCost]
@@ -149,7 +149,7 @@ theorem cntT_eq (x : Nat) (t : Tree) :
 
 /-! ### Initial state -/
 
-theorem distribute_cnt (n x : Nat) (hn : 0 < n) (rs : List Tree) (i : Nat) (acc : Nat → List Msg) :
+theorem distribute_cnt (n : Nat) (x : Label) (hn : 0 < n) (rs : List Tree) (i : Nat) (acc : Nat → List Msg) :
     sumTo n (dqCnt x ∘ distribute n rs i acc) = sumTo n (dqCnt x ∘ acc) + cntL x rs := by
   induction rs generalizing i acc with
   | nil => simp [distribute]
@@ -161,7 +161,7 @@ theorem distribute_cnt (n x : Nat) (hn : 0 < n) (rs : List Tree) (i : Nat) (acc 
     simp only [Function.comp, dqCnt_cons, Msg.cnt]
     omega
 
-theorem init_held (n x : Nat) (hn : 0 < n) (roots : List Tree) :
+theorem init_held (n : Nat) (x : Label) (hn : 0 < n) (roots : List Tree) :
     held n x (init n roots) = cntL x roots := by
   simp only [held, init]
   rw [distribute_cnt n x hn]
